@@ -102,7 +102,7 @@ func TestMetrics(t *testing.T) {
 		m := model{}
 		var conns []*connState
 		var hist []string
-		failures, retries := 0, 0
+		failures, retries, strays := 0, 0, 0
 		creds := hx.Creds{User: "admin", Password: []byte("pw"), Priv: 4, Suite: ref.Suite{Auth: 1, Integ: 1, Conf: 1}}
 		defer func() {
 			for _, c := range conns {
@@ -380,7 +380,7 @@ func TestMetrics(t *testing.T) {
 				case "retried", "expiry":
 					k := rapid.IntRange(1, 4).Draw(t, "k")
 					for i := 0; i < k; i++ {
-						o := rapid.SampledFrom([]hx.Outcome{hx.Busy, hx.TimeoutCC, hx.Garbage, hx.BadSig}).Draw(t, "fault")
+						o := rapid.SampledFrom([]hx.Outcome{hx.Busy, hx.TimeoutCC, hx.Garbage, hx.BadSig, hx.StrayOK, hx.StrayBusy}).Draw(t, "fault")
 						if !inSession && o == hx.BadSig {
 							o = hx.Garbage
 						}
@@ -433,6 +433,13 @@ func TestMetrics(t *testing.T) {
 						m.add("bmc_command_responses_total", codeLabel(0xC3), 1)
 					}
 				}
+				for _, o := range script[:n] {
+					if o == hx.StrayOK || o == hx.StrayBusy {
+						// a reply to some other command is not a valid response: it is
+						// retried past and counted under no completion code
+						strays++
+					}
+				}
 				hist = append(hist, fmt.Sprintf("command(%s, inSession=%v, udp=%v, %s)", cmd.Name(), inSession, c.udp, hx.ScriptString(script)))
 			},
 			"": func(t *rapid.T) { check() },
@@ -446,6 +453,9 @@ func TestMetrics(t *testing.T) {
 		if udpCount > 0 {
 			ev.Label("history:with-udp")
 		}
+		if strays > 0 {
+			ev.Label("history:stray-reply-not-counted")
+		}
 		ev.Sample(map[string]any{"history": hist, "failures": failures, "retries": retries})
 	})
 }
@@ -456,5 +466,5 @@ func installCaps(b *simbmc.BMC) {
 }
 
 func TestCoverage(t *testing.T) {
-	ev.RequireLabels(t, 1, "history:failure+retry", "history:with-udp")
+	ev.RequireLabels(t, 1, "history:failure+retry", "history:with-udp", "history:stray-reply-not-counted")
 }
